@@ -97,6 +97,19 @@ func c17Destinations() []string {
 			}
 		}
 	}
+	// encoded spellings of "/", "\\" and TAB that some decoder between the filter
+	// and the redirect might undo: HTML character references, JavaScript / JSON
+	// escapes, double percent-encoding, overlong UTF-8
+	for _, e := range []string{"&#47;", "&sol;", "&#x2f;", "&#x2F;", "&#0047;", "&#47", "&#92;", "&bsol;", "&#x5c;", "&Tab;", "&#9;", "&NewLine;", "&#10;", "&amp;#47;",
+		"\\u002f", "\\u005c", "\\x2f", "\\/", "%252f", "%255c", "%c0%af", "%e0%80%af", "%u002f", "+/", "%2F"} {
+		for _, b := range c17Bodies {
+			add("/" + e + b)
+			add("/" + e + "/" + b)
+			add(e + e + b)
+			add(e + "/" + b)
+			add("/x/../" + e + b)
+		}
+	}
 	// ordinary destinations (liveness)
 	for _, s := range c17Good() {
 		add(s)
@@ -350,7 +363,7 @@ func init() {
 	vfRegister(&vfeng.Check{
 		ID:    "C17",
 		Level: "model_checking",
-		Rule:  "exhaustive destination grammar (every prefix of length <=3 over 14 symbols, every C0 control and 9 non-printable Unicode runes at positions 0-2, scheme-like prefixes, absolute URLs starting with this server's own origin text followed by 13 authority-changing tails) x 4 bodies, plus every prefix of length <=2 x 4 bodies x 10 tails that force URL re-serialisation (invalid path characters, broken escapes), plus 9 dot-segment heads x every prefix of length <=2 x 4 bodies, x every driven redirect site (login form/query/GET, TOTP, bootstrap OTP, VIP OTP, federated callback) on the real handlers' success paths; Location (as net/http puts it on the wire; conformance-checked through a real http.Server) resolved with WHATWG rules must stay on keymasterd's origin; plus every site x 10 accepted destinations x {host_identity configured, derived from the host name} x request Host {absent, own, own:443, alias, own:8443}; class = (site, outcome, destination class)",
+		Rule:  "exhaustive destination grammar (every prefix of length <=3 over 14 symbols, every C0 control and 9 non-printable Unicode runes at positions 0-2, scheme-like prefixes, absolute URLs starting with this server's own origin text followed by 13 authority-changing tails) x 4 bodies, plus every prefix of length <=2 x 4 bodies x 10 tails that force URL re-serialisation (invalid path characters, broken escapes), plus 9 dot-segment heads x every prefix of length <=2 x 4 bodies, plus 25 encoded spellings of slash / backslash / TAB (HTML character references, JS escapes, double percent-encoding, overlong UTF-8) in 5 positions x 4 bodies, x every driven redirect site (login form/query/GET, TOTP, bootstrap OTP, VIP OTP, federated callback) on the real handlers' success paths; Location (as net/http puts it on the wire; conformance-checked through a real http.Server) resolved with WHATWG rules must stay on keymasterd's origin; plus every site x 10 accepted destinations x {host_identity configured, derived from the host name} x request Host {absent, own, own:443, alias, own:8443}; class = (site, outcome, destination class)",
 		Assumptions: []string{"browser URL resolution is modelled by the WHATWG subset in whatwg.go", "net/http's header sanitisation (CR/LF to space, trim) is applied to recorder output and validated against a real http.Server on loopback for a sample of points and for every violation"},
 		Bounds: func(tier string) map[string]interface{} {
 			return map[string]interface{}{"destinations": len(c17Destinations()), "sites": len(c17Sites())}
